@@ -174,22 +174,53 @@ def canon_result(res):
             "unparsed": list(res.unparsed), "remainder": res.remainder}
 
 
-def make_parser(sigs, initial="core", ignore_unknown=False):
+def make_parser(sigs, initial="core", ignore_unknown=False, noctx=False):
     from invoke.parser import Parser
-    return Parser(contexts=contexts_of(sigs), initial=initial_context(initial),
+    return Parser(contexts=() if noctx else contexts_of(sigs), initial=initial_context(initial),
                   ignore_unknown=ignore_unknown)
 
 
-def run_parse(sigs, argv, initial="core", ignore_unknown=False):
-    def go():
+def other_argv(argv):
+    """a different command line to parse in between (deterministic)"""
+    return list(reversed(argv)) + ["-e", "--", "x"]
+
+
+def run_parse(sigs, argv, initial="core", ignore_unknown=False, noctx=False, purity=True):
+    """Parse on a real Parser.  With [purity] the SAME Parser object is used three
+    times (argv, a different argv, argv again) and argv / parser.initial /
+    parser.contexts are deep-compared before and after: any impurity is reported as
+    a pseudo exception class (Impure...), which no specification accepts."""
+    def attempt(parser, av):
         try:
-            parser = make_parser(sigs, initial, ignore_unknown)
-            res = parser.parse_argv(list(argv))
+            return {"ok": canon_result(parser.parse_argv(av))}
         except _Timeout:
             raise
         except BaseException as e:  # noqa
             return {"err": type(e).__name__}
-        return {"ok": canon_result(res)}
+
+    def go():
+        try:
+            parser = make_parser(sigs, initial, ignore_unknown, noctx)
+        except _Timeout:
+            raise
+        except BaseException as e:  # noqa
+            return {"err": type(e).__name__}
+        av = list(argv)
+        if not purity:
+            return attempt(parser, av)
+        before = snapshot_parser(parser)
+        r1 = attempt(parser, av)
+        if av != list(argv):
+            return {"err": "ImpureArgvModified"}
+        if snapshot_parser(parser) != before:
+            return {"err": "ImpureParserModified"}
+        attempt(parser, other_argv(argv))
+        r2 = attempt(parser, list(argv))
+        if r2 != r1:
+            return {"err": "ImpureRepeatDiffers"}
+        if snapshot_parser(parser) != before:
+            return {"err": "ImpureParserModified"}
+        return r1
     return with_timeout(go)
 
 
